@@ -174,25 +174,43 @@ def extract_operator_lists(tree):
     return allowed, rev
 
 
+OPERATOR_FUNCTIONS = {"+": "operator.add", "-": "operator.sub", "*": "operator.mul", "/": "operator.truediv",
+                      "//": "operator.floordiv", "%": "operator.mod", "divmod()": "divmod", "**": "operator.pow"}
+
+
 def extract_sample_given(tree):
-    """-> True if a missing attribute is treated like NotImplemented (guarded), False for the plain getattr."""
+    """-> True if binary operators are applied to the sampled operands with operator.add & co. (Python's own
+    dispatch), False for the getattr / NotImplemented emulation."""
     fn = get_def(tree, "OperatorDistribution.sampleGiven", DIST)
+    body = body_nodoc(fn)
+    heads = [ast.unparse(s) for s in body[:3]]
+    expect(heads == ["first = value[self.object]", "rest = [value[child] for child in self.operands]",
+                     "kwargs = {key: value[child] for key, child in self.kwoperands.items()}"], "sampleGiven: prologue changed")
+    rest = body[3:]
     getattrs = [n for n in ast.walk(fn) if _is_call(n, "getattr")]
-    expect(len(getattrs) == 2, "sampleGiven: expected exactly two getattr calls")
-    arities = sorted(len(g.args) for g in getattrs)
-    src_ops = []
-    for g in getattrs:
-        expect(isinstance(g.args[1], ast.Attribute) and g.args[1].attr in ("operator", "reverse"), "sampleGiven: getattr of an unexpected name")
-        src_ops.append(g.args[1].attr)
-    expect(sorted(src_ops) == ["operator", "reverse"], "sampleGiven: getattr(first, self.operator) / getattr(rest[0], self.reverse)")
-    # NotImplemented protocol present
-    ni = [n for n in ast.walk(fn) if isinstance(n, ast.Compare) and any(is_name(c, "NotImplemented") for c in n.comparators)]
-    expect(len(ni) >= 2, "sampleGiven: NotImplemented checks missing")
-    if arities == [2, 2]:
+    if len(getattrs) == 2:
+        want = [
+            "op = getattr(first, self.operator)",
+            "result = op(*rest, **kwargs)",
+            "if result is NotImplemented and self.reverse:\n    assert len(rest) == 1 and len(kwargs) == 0\n    rop = getattr(rest[0], self.reverse)\n    result = rop(first)",
+        ]
+        got = [ast.unparse(s) for s in rest]
+        expect(len(got) == 5 and got[:3] == want and got[3].startswith("if result is NotImplemented and self.symbol:\n    raise TypeError(")
+               and got[4] == "return result", "sampleGiven: the getattr/NotImplemented emulation changed shape")
         return False
-    if arities == [3, 3] and all(isinstance(g.args[2], ast.Constant) and g.args[2].value is None for g in getattrs):
+    if len(getattrs) == 1:
+        got = [ast.unparse(s) for s in rest]
+        want_if = ("if self.symbol:\n    assert len(rest) == 1 and len(kwargs) == 0\n    function = binaryOperatorFunctions[self.symbol]\n"
+                   "    if self.operator.startswith('__r'):\n        return function(rest[0], first)\n    return function(first, rest[0])")
+        expect(got == [want_if, "op = getattr(first, self.operator)", "return op(*rest, **kwargs)"], "sampleGiven: operator-function form changed shape")
+        table = None
+        for st in tree.body:
+            if isinstance(st, ast.Assign) and len(st.targets) == 1 and is_name(st.targets[0], "binaryOperatorFunctions"):
+                expect(isinstance(st.value, ast.Dict), "binaryOperatorFunctions is not a dict literal")
+                table = {k.value: ast.unparse(v) for k, v in zip(st.value.keys, st.value.values)}
+        expect(table == OPERATOR_FUNCTIONS, "binaryOperatorFunctions does not map each symbol to its operator function")
         return True
-    raise TemplateMismatch("sampleGiven: unrecognised getattr defaults")
+    raise TemplateMismatch("sampleGiven: unrecognised shape")
 
 
 def extract_vector_ops(tree):
@@ -211,6 +229,14 @@ def extract_vector_ops(tree):
     h = body_nodoc(mk)[0]
     expect(isinstance(h, ast.FunctionDef) and h.name == "handler", "makeVectorOperatorHandler: handler")
     hb = body_nodoc(h)
+    WRAP = "args = tuple((toDistribution(arg) for arg in args))"
+    wraps_handler = len(hb) == 3 and ast.unparse(hb[0]) == WRAP
+    if wraps_handler:
+        hb = hb[1:]
+    helper = [n for n in ast.walk(get_def(tree, "vectorOperator", VECT)) if isinstance(n, ast.FunctionDef) and n.name == "helper"]
+    expect(len(helper) == 1, "vectorOperator: helper")
+    wraps_helper = ast.unparse(body_nodoc(helper[0])[0]) == WRAP
+    expect(wraps_handler == wraps_helper, "vector operators wrap their operands in only one of handler / helper")
     expect(len(hb) == 2 and isinstance(hb[0], ast.If) and isinstance(hb[1], ast.Return), "vector handler: shape")
     expect(_is_call(hb[1].value, "VectorOperatorDistribution", 3), "vector handler: general case")
     conds = _conjuncts(hb[0].test)
@@ -241,7 +267,7 @@ def extract_vector_ops(tree):
                     named.append((st.name, d.id))
     plain_dunders = [st.name for st in cls.body if isinstance(st, ast.FunctionDef) and st.name.startswith("__")
                      and st.name[2:-2].lstrip("r") in BINOPS and not st.decorator_list]
-    return ops, named, plain_dunders, accepts_seq
+    return ops, named, plain_dunders, accepts_seq, wraps_handler
 
 
 def extract_monotone(tree):
@@ -283,12 +309,12 @@ def extract():
     simp = extract_handlers(dist)
     allowed, rev = extract_operator_lists(dist)
     guard = extract_sample_given(dist)
-    vops, named, plain, accepts_seq = extract_vector_ops(vect)
+    vops, named, plain, accepts_seq, wraps = extract_vector_ops(vect)
     mono = extract_monotone(geom)
     extract_distribution_method(dist)
     ident = extract_identity_methods(vect)
     return {"simp": simp, "allowed": allowed, "reversible": rev, "guard": guard, "vecOps": vops, "vecNamed": named,
-            "vecPlain": plain, "vecAcceptsSeq": accepts_seq, "monotone": mono, "identityMethods": ident}
+            "vecPlain": plain, "vecAcceptsSeq": accepts_seq, "vecWrapsOperands": wraps, "monotone": mono, "identityMethods": ident}
 
 
 def _dunder_to_lean(name):
@@ -332,7 +358,7 @@ open Scenic.Expr
 def exprTables : Tables :=
   {{ simp := [{", ".join(simp_rows)}],
     vecOps := [{", ".join(vec_rows)}],
-    guardMissingAttr := {"true" if d["guard"] else "false"},
+    pythonDispatch := {"true" if d["guard"] else "false"},
     vecHandlerAcceptsSeq := {"true" if d["vecAcceptsSeq"] else "false"} }}
 
 /-- `X * globalOrientation -> X` style simplifications on Orientation-typed values: (operator, reflected) -/
@@ -346,6 +372,8 @@ def reversibleOperators : List String := {q([a for a, _ in d["reversible"]])}
 def vectorPlainDunders : List String := {q(d["vecPlain"])}
 /-- named Vector methods with their lifting decorator -/
 def vectorNamedOps : List (String × String) := [{", ".join('("%s", "%s")' % x for x in d["vecNamed"])}]
+/-- the vector operators wrap tuple/list operands with toDistribution (the model does not cover such operands) -/
+def vectorOperatorsWrapOperands : Bool := {"true" if d["vecWrapsOperands"] else "false"}
 /-- functions of geometry.py declared `monotonicDistributionFunction` -/
 def monotoneDeclared : List String := {q(d["monotone"])}
 
